@@ -293,7 +293,7 @@ def dag(w):
             fuc=['pytoniq_core.boc.deserialize.Boc.deserialize', 'pytoniq_core.boc.deserialize.Boc.deserialize_boc_header',
                  'pytoniq_core.boc.deserialize.Boc.deserialize_cell', TLD],
             descr='bounded, native: byte strings of up to 300 bytes built around valid BoC / TL prefixes with count and length fields '
-                  'replaced by huge values (cells, roots, index entries, vector lengths 2^31..2^32-1, string lengths), truncations and '
+                  'replaced by huge values (cells, roots, index entries, vector lengths 2^31..2^32-1, string lengths), truncations, well-formed TL messages with packed objects nested up to 30 deep, and '
                   'random tails: every parser call returns or raises after at most 8*len + 64 loop iterations (tick cap, no wall clock)')
 def adversarial(w):
     from pytoniq_core.boc.cell import Cell
@@ -334,7 +334,24 @@ def adversarial(w):
         w.claim(f'BoC parser work bounded by the input (len={len(data)}, ticks={t})', t <= 8 * len(data) + 64)
     else:
         schemas = _schemas(G)
-        mode = rng.choice(['vector', 'vector', 'bytes', 'random'])
+        mode = rng.choice(['vector', 'vector', 'bytes', 'random', 'nested', 'nested'])
+        if mode == 'nested':
+            # a WELL-FORMED message: bytes fields holding several packed objects, nested d levels deep (auto-deserialise mode); any
+            # re-parsing of already parsed nested objects multiplies the work per level
+            d = rng.choice([4, 10, 18, 26, 30])
+            sa = _schemas(G)
+            sa._auto_deserialize = True
+            tail = sa.serialize(sa.get_by_name('overlay.emptyCertificate'), {})
+            inner = sa.serialize(sa.get_by_name('dht.ping'), {'random_id': rng.getrandbits(60)})
+            for _ in range(d):
+                inner = sa.serialize(sa.get_by_name('adnl.message.custom'), {'data': inner + tail})
+            loader.GLOBAL_TICKS.clear()
+            k, r = _capped(sa.deserialize, (inner,), 16 * len(inner) + 64)
+            sa._auto_deserialize = False
+            t = sum(v for k_, v in loader.GLOBAL_TICKS.items() if k_.startswith('TlSchemas.deserialize') and ':loop' in k_)
+            w.claim(f'TL parser work on nested packed objects bounded by the input (depth={d}, len={len(inner)}, ticks={t})',
+                    k != 'cap' and t <= 16 * len(inner) + 64)
+            return
         if mode == 'vector':
             elem = rng.choice(['int', 'long', 'int256', 'tonNode.blockIdExt', 'adnl.Message', 'bytes'])
             L = rng.choice([0xFFFFFFFF, 0x80000000, 0x7FFFFFFF, 1 << 24, 1000, 5])
